@@ -46,6 +46,49 @@ pub fn c14_q_eventdecoder() {
     kani::cover!(s == KeyState::SingleShot);
 }
 
+/// C14 after a symbolic two-event history (so decoder state that only builds up over several events
+/// - a cache, a repeat counter - is inside the query): modifier state reached by presses, then two
+/// arbitrary events, then an optional reconfiguration, then the observed event.
+#[kani::proof]
+pub fn c14_q_after_history() {
+    let calls = Cell::new(0);
+    let m0 = any_mods();
+    let h0 = any_mode();
+    let mut d = evdec(Spy { tag: false, calls: &calls }, &m0, h0);
+    let (k1, s1) = (any_key(), any_state());
+    let (k2, s2) = (any_key(), any_state());
+    let _ = d.process_keyevent(KeyEvent::new(k1, s1));
+    let _ = d.process_keyevent(KeyEvent::new(k2, s2));
+    let m = spec_next(&spec_next(&m0, k1, s1), k2, s2);
+    let mut mode = h0;
+    let mut tag = false;
+    if kani::any() {
+        mode = any_mode();
+        d.set_ctrl_handling(mode);
+    }
+    if kani::any() {
+        tag = kani::any();
+        d.change_layout(Spy { tag, calls: &calls });
+    }
+    let k = any_key();
+    let s = any_state();
+    let n0 = calls.get();
+    let out = d.process_keyevent(KeyEvent::new(k, s));
+    let n1 = calls.get();
+    crate::show!("C14 history mods0={:?} mode0={:?} ev1=({:?},{:?}) ev2=({:?},{:?}) mode={:?} tag={} key={:?} state={:?} out={:?} layout_calls={}", m0, h0, k1, s1, k2, s2, mode, tag, k, s, out, n1.wrapping_sub(n0));
+    if s != KeyState::Down {
+        assert!(out.is_none() && n1 == n0, "C14: a release or one-shot event produced a decoded key (after a history)");
+    } else if k == KeyCode::NumpadLock && m.rctrl2 {
+        assert!(out == Some(DecodedKey::RawKey(KeyCode::PauseBreak)) && n1 == n0, "C14: Pause inference after a history");
+    } else if is_modifier_key(k) {
+        assert!(out == Some(DecodedKey::RawKey(k)) && n1 == n0, "C14: a modifier/lock press must yield its own raw key (after a history)");
+    } else {
+        assert!(out == Some(enc(tag, k, &m, mode)), "C14: press after a history not decoded by the current layout with the current modifiers and mode");
+        assert!(n1 == n0.wrapping_add(1), "C14: the layout must be consulted exactly once per press (after a history)");
+    }
+    kani::cover!(s == KeyState::Down && k == k2 && k == k1 && s1 == KeyState::Down && s2 == KeyState::Down && !is_modifier_key(k) && mode != h0);
+}
+
 #[kani::proof]
 pub fn c14_q_keyboard() {
     let calls = Cell::new(0);
